@@ -170,6 +170,11 @@ def scenario(draw):
         "cell_op": draw(st.sampled_from(["aniso", "shear"])),
         # one more table entry: two bare user moves inside the package's plain CompositeMove, with a bare criteria
         "wrapped": draw(st.booleans()),
+        # a bystander entry that is scheduled only every 2nd/3rd step and never selected: it is still part of the table
+        # and must hear of every accepted change; and the first user move listed once more under another name with
+        # its own criteria and schedule
+        "idle_interval": draw(st.sampled_from([None, 2, 3])),
+        "alias": draw(st.booleans()),
     }
     if driver in ("Isobaric", "Isotension", "GrandCanonical") and draw(st.integers(0, 5)) > 0:
         scn["shipped"] = True
@@ -220,6 +225,17 @@ class C20Machine(M.HistoryMachine):
                 _st(mv)["shift"] = None if scn["shifts"][i] is None or d == "MonteCarlo" else np.array(scn["shifts"][i])
                 self.guarded("add_move", self.mc.add_move, mv, criteria=cr, name=f"u{i}")
                 self.users.append((mv, cr))
+            self.idle = None
+            if scn.get("idle_interval"):
+                im, ic = BareMove(payload=51), BareCriteria(payload=61)
+                self.guarded("add_move", self.mc.add_move, im, criteria=ic, name="idle", interval=int(scn["idle_interval"]))
+                self.idle = (im, ic)
+                self.labels.add("bystander-entry-with-interval")
+            self.alias_cr = None
+            if scn.get("alias"):
+                self.alias_cr = BareCriteria(payload=71)
+                self.guarded("add_move", self.mc.add_move, self.users[0][0], criteria=self.alias_cr, name="alias", interval=2, probability=0.25)
+                self.labels.add("user-move-under-two-names")
             self.wrapped = None
             if scn.get("wrapped"):
                 from quansino.moves.composite import CompositeMove
@@ -262,6 +278,10 @@ class C20Machine(M.HistoryMachine):
         objs = [(mv, f"user move u{i}") for i, (mv, _c) in enumerate(self.users)] + [(cr, f"user criteria of u{i}") for i, (_m, cr) in enumerate(self.users)]
         if getattr(self, "wrapped", None):
             objs += [(self.wrapped[0], "user move w[0]"), (self.wrapped[1], "user move w[1]"), (self.wrapped[2], "user criteria of w")]
+        if getattr(self, "idle", None):
+            objs += [(self.idle[0], "user move idle"), (self.idle[1], "user criteria of idle")]
+        if getattr(self, "alias_cr", None) is not None:
+            objs += [(self.alias_cr, "user criteria of alias")]
         for obj, tag in objs:
             for _once in (0,):
                 s = _st(obj)
@@ -315,6 +335,8 @@ class C20Machine(M.HistoryMachine):
         notified = [(f"u{i}", mv) for i, (mv, _cr) in enumerate(self.users)]
         if getattr(self, "wrapped", None):
             notified += [("w[0]", self.wrapped[0]), ("w[1]", self.wrapped[1])]
+        if getattr(self, "idle", None):
+            notified += [("idle", self.idle[0])]
         for i, mv in notified:
             s = _st(mv)
             a0, c0 = getattr(self, "replaced", {}).get(id(mv), (0, 0))
@@ -374,6 +396,48 @@ class C20Machine(M.HistoryMachine):
                 return
         self.verdicts += {True: "A", False: "R", None: "F"}.get(got, "?")
         self._after_any_trial(where, got, added, removed, cell_changed)
+
+    @rule(i=st.integers(0, 2), r1=st.integers(0, len(RESULTS) - 1), r2=st.integers(0, len(RESULTS) - 1), v1=st.booleans(), v2=st.booleans())
+    def user_double_trial(self, i, r1, r2, v1, v2):
+        """Two trials of one user entry within one step (two cycles): each is recorded by its own outcome."""
+        if self.dead or self.mc is None:
+            return
+        self.log.append({"rule": "user_double_trial", "args": {"i": i, "r1": r1, "r2": r2, "v1": v1, "v2": v2}})
+        i = i % len(self.users)
+        mv, cr = self.users[i]
+        res = [RESULTS[r1], RESULTS[r2]]
+        _st(mv)["results"] = list(res)
+        _st(cr)["verdicts"] = [v for r, v in zip(res, (v1, v2)) if r]
+        self._select(f"u{i}")
+        old_cycles = self.mc.max_cycles
+        self.mc.max_cycles = 2
+
+        def body():
+            for step in self.mc.irun(1):
+                for _ in step:
+                    pass
+
+        try:
+            self.guarded("step", body)
+        except M.Stop:
+            return
+        finally:
+            self.mc.max_cycles = old_cycles
+        hist = [h for h in self.mc.move_history]
+        want = [((v1 if res[0] else None)), ((v2 if res[1] else None))]
+        got = [h[1] for h in hist]
+        where = f"two trials of u{i} in one step, results {res!r}, verdicts {(v1, v2)}"
+        if [h[0] for h in hist] != [f"u{i}", f"u{i}"] or len(got) != 2 or any((g is not w and g != w) or ((g is None) != (w is None)) for g, w in zip(got, want)):
+            self.fail("history-two-cycles", f"{where}: move_history {hist!r}, expected outcomes {want!r}")
+            return
+        for r in res:
+            self.result_kinds.add(repr(r))
+            if r:
+                self.truthy += 1
+            else:
+                self.falsy += 1
+        self.labels.add("two-cycles-in-one-step")
+        self._after_any_trial(where, None, [], [], False)
 
     @rule(ra=st.integers(0, len(RESULTS) - 1), rb=st.integers(0, len(RESULTS) - 1), verdict=st.booleans())
     def wrapped_trial(self, ra, rb, verdict):
@@ -475,6 +539,20 @@ class C20Machine(M.HistoryMachine):
                 if st2 is None or type(st2.move) is not BareMove or type(st2.criteria) is not BareCriteria \
                         or _st(st2.move)["payload"] != i + 10 or _st(st2.criteria)["payload"] != i + 20:
                     self.fail("serialisation-rebuild", f"{type(self.mc).__name__}.from_dict did not rebuild user entry u{i}")
+                    raise M.Stop()
+            if getattr(self, "idle", None):
+                k = d["moves"]["idle"]["kwargs"]
+                i2 = mc2.moves.get("idle")
+                if k["move"] != {"name": "BareMove", "kwargs": {"payload": 51}} or k["criteria"] != {"name": "BareCriteria", "kwargs": {"payload": 61}} \
+                        or i2 is None or i2.interval != int(self.scn["idle_interval"]):
+                    self.fail("serialisation-content", f"bystander entry not serialised with its own objects and schedule: {k}")
+                    raise M.Stop()
+            if getattr(self, "alias_cr", None) is not None:
+                k = d["moves"]["alias"]["kwargs"]
+                a2 = mc2.moves.get("alias")
+                if k["criteria"] != {"name": "BareCriteria", "kwargs": {"payload": 71}} or k["move"] != {"name": "BareMove", "kwargs": {"payload": 10}} \
+                        or a2 is None or a2.interval != 2 or type(a2.criteria) is not BareCriteria or _st(a2.criteria)["payload"] != 71:
+                    self.fail("serialisation-content", f"the second entry of a move listed under two names lost its own criteria or schedule: {k}")
                     raise M.Stop()
             if getattr(self, "wrapped", None):
                 w2 = mc2.moves.get("w")
